@@ -18,6 +18,9 @@ pub struct Case {
     pub w: usize,
     pub threads: usize,
     pub sched: Sched,
+    /// bytes of left-over text at both output paths before the run (0 = the paths do not exist)
+    #[serde(default)]
+    pub stale: u32,
 }
 
 type Run = (String, usize, usize);
@@ -44,8 +47,8 @@ pub struct MinOut {
 pub fn exec(input: &str, dir: &std::path::Path, w: usize, m: usize, threads: usize, s: &Sched) -> MinOut {
     let p1 = dir.join("s2m.out");
     let p2 = dir.join("m2s.out");
-    let _ = std::fs::remove_file(&p1);
-    let _ = std::fs::remove_file(&p2);
+    io::plant_stale(&p1);
+    io::plant_stale(&p2);
     let g = sched::install(s, threads, "min.taken", "min.exit");
     let r1 = guarded(|| seq_to_min(w, m, input, &io::path_str(&p1), threads));
     let report = g.report();
@@ -178,7 +181,10 @@ pub fn check_case(c: &Case) -> Verdict {
     v.class_if(short, "record<m");
     let ids: std::collections::HashSet<&String> = c.recs.iter().map(|r| &r.id).collect();
     v.class_if(ids.len() < c.recs.len(), "duplicate-id");
+    io::set_stale(c.stale as usize);
     let o = exec(&io::path_str(&input), dir.path(), c.w, c.m, c.threads, &c.sched);
+    io::set_stale(0);
+    v.class_if(c.stale > 0, "output-paths-hold-an-earlier-result");
     v.class_if(o.report.degraded > 0, "sched-degraded");
     if let Some(shared) = fail_of(&mut v, &o, &c.recs, c.w, c.m, &format!("w={}, m={}, {} threads, {}", c.w, c.m, c.threads, c.cont.label())) {
         v.nontrivial = c.recs.len() >= 3 && shared && c.threads >= 2;
@@ -197,7 +203,7 @@ impl Leg for Runs {
             .prop_flat_map(move |((m, w), threads, dup)| {
                 let scale = if w == 0 { m } else { w };
                 let p = RecParams { max_records: tier.pick(30, 200), scale, max_len: tier.pick(150, 500), degenerate_w: 2, bounds: [m, w, 0], nuc_only: false };
-                (gen::records_mixed_in_container(p), gen::sched_strategy(true, 80), any::<u16>()).prop_map(move |((mut recs, cont), sched, which)| {
+                (gen::records_mixed_in_container(p), gen::sched_strategy(true, 80), any::<u16>(), io::stale_strategy()).prop_map(move |((mut recs, cont), sched, which, stale)| {
                     let dup = dup || which % 16 == 1;
                     if dup && recs.len() >= 2 {
                         // a reused id; half of the time the whole record is repeated (a file concatenated
@@ -209,7 +215,7 @@ impl Leg for Runs {
                         }
                     }
                     let threads = if matches!(sched, Sched::Controlled(_)) { ((threads - 1) % 6) + 1 } else { threads };
-                    Case { recs, cont, m, w, threads, sched }
+                    Case { recs, cont, m, w, threads, sched, stale }
                 })
             })
             .boxed()
